@@ -38,6 +38,7 @@ func init() {
 			bc.Run("R-BOUNDS", "R-DIVGUARD", fns)
 			m.RunNilField(s, "R-NILFIELD", fns)
 			m.RunPanicCall(s, "R-PANICCALL", fns)
+			m.RunNilFuncCall(s, "R-PANICCALL", fns) // a function looked up in a table is called only where it was found
 			m.RunNilObj(s, "R-NILOBJ", fns)
 			m.RunOkObj(s, "R-NILOBJ", fns) // the object of a (object, found) lookup is used only where it was found
 			m.RunTypedNil(s, "R-NILOBJ", fns)
